@@ -614,7 +614,7 @@ def meta_of(cls):
 
 
 def rsave_setup(ctx):
-    case = pick(ctx, "attr_kind", ATTR_CASES)
+    case = pick(ctx, "attr_kind", [c for c in attr_cases() if not c.startswith("root:")])
     a = fresh_name(ctx, "a", Box, distinct_from=["zz_other"])
     v = mk_value(ctx, case)
     w = ctx.fresh("w", "int")
@@ -660,13 +660,18 @@ def rsave_modifies(ctx, s):
     G = s.group
     if not isinstance(G, AGroup):
         raise OutOfSubset("_recursive_save into a non-abstract group")
+    if ctx.ghost.pop("inline_next_recursive_save", False):
+        # this one call is executed through its real body (more precise than the contract): used to build root groups
+        run_real(ctx, f"{AS}._recursive_save", [s.self, s.obj, G, s.skip_names, s.skip_types, s.compressors], label="root:_recursive_save",
+                 writer_has_own_contract=True)
+        return
     if "_autoserialize" not in G.attrs:
         G.attrs["_autoserialize"] = meta_of(s.obj.cls if isinstance(s.obj, Obj) else type(s.obj))
     G.enc = NS(kind="obj", value=s.obj, names=s.skip_names, types=s.skip_types, compressors=s.compressors)
 
 
 def rsave_requires(s):
-    if s.mode == "verify":
+    if s.mode == "verify" or s.ctx.ghost.get("inline_next_recursive_save"):
         return []
     G = s.group
     return [("target-group-is-fresh", B(isinstance(G, AGroup) and len(G.attrs) == 0 and len(G.arrays) == 0 and len(G.groups) == 0 and G.enc is None)),
@@ -817,17 +822,49 @@ C_DCONT = Contract(f"{AS}._deserialize_container", setup=dcont_setup, requires=d
 # ------------------------------------------------------------------------------------------------
 
 
+ROOT_CASES = ["root:int", "root:ndarray1", "root:obj"]
+
+
+def attr_cases():
+    if MODE["skip"]:
+        return ["int", "str", "path", "ndarray1", "tensor", "module", "list:str", "dict", "obj", "pylogger", "rng:PCG64", "root:int", "root:obj"]
+    return ATTR_CASES + ROOT_CASES
+
+
 def rload_setup(ctx):
-    case = pick(ctx, "attr_kind", ATTR_CASES)
+    """Pre-state: the group that the REAL writer produced for an arbitrary object -
+    `_recursive_save` for a nested group, the whole `save` (directory store) for a root group."""
+    case = pick(ctx, "attr_kind", attr_cases())
+    root = case.startswith("root:")
     a = fresh_name(ctx, "a", Box, distinct_from=["zz_other"])
-    v = mk_value(ctx, case)
+    v = mk_value(ctx, case[5:] if root else case)
     w = ctx.fresh("w", "int")
     obj = mk_obj(Box, [(a, v), ("zz_other", w)])
-    names, types = skip_ctx(ctx)
-    G = AGroup()
-    run_real(ctx, f"{AS}._recursive_save", [obj, obj, G, names, types, COMP], label=f"[{case}]_recursive_save", writer_has_own_contract=True)
+    if root:
+        # save() normalises `skip` itself; its own contract covers that, here it gets the names as a list
+        fs = cm.GhostFS(lazy=False)
+        ctx.ghost["fs"] = fs
+        if MODE["skip"]:
+            n1 = StrSym(z3.String(ctx.fresh_name("save_n1")))
+            skip, names, types = [n1], [n1], ()
+        else:
+            skip, names, types = (), frozenset(), ()
+        ctx.ghost["inline_next_recursive_save"] = True  # the root's _recursive_save call runs the real body, not the contract
+        run_real(ctx, f"{AS}.save", [obj, "/ghost/target", "w", "dir", skip, None], label=f"[{case}]save", writer_has_own_contract=True)
+        n = fs.node("/ghost/target")
+        if n is None or not isinstance(n.tree, AGroup):
+            ctx.prove(f"[{case}]save-created-the-root-group", z3.BoolVal(False), assume_after=False)
+            raise PathEnd("no root group")
+        G = n.tree
+    else:
+        names, types = skip_ctx(ctx)
+        G = AGroup()
+        run_real(ctx, f"{AS}._recursive_save", [obj, obj, G, names, types, COMP], label=f"[{case}]_recursive_save", writer_has_own_contract=True)
     if MODE["skip"]:
         lnames = cm.fresh_symset(ctx, "S_load", universe=lambda: [a, "zz_other"])
+        if root:
+            # load() hands the union of the user's names and the persisted ones to the root call (its own contract)
+            lnames = lnames | set(names)
     else:
         lnames = frozenset()
     return NS(cls=Box, group=G, skip_names=lnames, skip_types=(), orig=obj, case=case,
@@ -853,7 +890,10 @@ def rload_requires(s):
     e = G.enc if isinstance(G, AGroup) else None
     ok = e is not None and e.kind == "obj"
     cls_ok = ok and isinstance(e.value, Obj) and e.value.cls is s.cls
-    return [("group-was-written-by-_recursive_save", B(ok)), ("class-resolved-from-the-stored-identity-is-the-object's-class", B(cls_ok))]
+    keys = [k for k in G.attrs.m.keys()] if isinstance(G, AGroup) else []
+    extra = [k for k in keys if not (isinstance(k, str) and k in ("_autoserialize", "_autoserialize_skip_names", "_autoserialize_skip_types"))]
+    return [("group-was-written-by-_recursive_save", B(ok)), ("class-resolved-from-the-stored-identity-is-the-object's-class", B(cls_ok)),
+            ("nothing-else-was-written-into-the-group-(except-save's-skip-lists-in-a-root)", B(not extra and len(G.arrays) == 0 and len(G.groups) == 0))]
 
 
 def rload_result(ctx, s):
@@ -1449,7 +1489,7 @@ def rt_case(inp):
     """Replay of one symbolic case on the real code: the case's value at attribute position / inside a container."""
     pos = inp.get("position", "attr")
     kinds = inp["kinds"]
-    if pos == "attr":
+    if pos in ("attr", "root"):
         descs = [kinds[0]]
     elif pos == "dict":
         descs = ["dict(" + ",".join(f"key{i}={k}" for i, k in enumerate(kinds)) + ")"]
@@ -1503,9 +1543,12 @@ def conc_attr(ev):
     i = ev("attr_kind")
     if i is None:
         return None
-    case = ATTR_CASES[i]
+    case = attr_cases()[i]
+    pos = "attr"
+    if case.startswith("root:"):
+        pos, case = "root", case[5:]
     nd = int(case[7:]) if case.startswith("ndarray") else 0
-    return dict(position="attr", kinds=[case], dims=_dims(ev, "v", nd))
+    return dict(position=pos, kinds=[case], dims=_dims(ev, "v", nd))
 
 
 def conc_cont(ev):
